@@ -241,6 +241,26 @@ func checkC16(c *Check) {
 					// logger-enabled tests do not restrict the removal (they guard logging blocks that rejoin)
 					extra = append(extra, g.String())
 				case "!=", "==":
+					// a nil test of the visited entry itself, or of a pointer of it
+					// that the age condition dereferences, restricts nothing: an
+					// entry without that pointer has no age to compare (the age
+					// condition would not be evaluable for it)
+					isNilO := func(o *Org) bool { return o != nil && o.K == "const" && o.Name == "nil" }
+					var other *Org
+					if isNilO(g.X) {
+						other = g.Y
+					} else if isNilO(g.Y) {
+						other = g.X
+					}
+					if other != nil && (other.K == "closure" || other.K == "func") {
+						continue // a nil test of a function value that is a literal: always non-nil
+					}
+					if other != nil {
+						root, names := other.FieldPath()
+						if sameOrg(root, uOrg) && (len(names) == 0 || (!isSess && len(names) == 1 && names[0] == "Source")) {
+							continue
+						}
+					}
 					// debugLogger != nil blocks rejoin before the removal; if one still guards it, it is an extra condition
 					extra = append(extra, g.String())
 				default:
